@@ -163,6 +163,18 @@ Definition pcase_agree (k : pcase) : bool :=
 
 (* monitor on observed data only: after every successfully handled event of a persistent
    sync_state block the storage holds exactly the state reported by get_state() *)
+(* nothing was written: same time stamp; whatever entry exists afterwards existed before with
+   the same contents; no entry of an existing persistent block has disappeared *)
+Definition nothing_written (cfgs : list pcfg) (before after : snap) : bool :=
+  let pkeys := map p_key (filter p_persistent cfgs) in
+  oz_eq (sn_stop_ts before) (sn_stop_ts after) &&
+  forallb (fun k => match sget (sn_store before) k, sget (sn_store after) k with
+                    | Some x, Some y => bst_eqb x y
+                    | None, Some _ => false
+                    | Some _, None => negb (existsb (String.eqb k) pkeys)
+                    | None, None => true
+                    end) (pkeys ++ map fst (sn_store after)).
+
 Fixpoint sync_monitor (cfgs : list pcfg) (on : list bool) (xs : list (pstep * snap)) : bool :=
   match xs with
   | [] => true
@@ -181,8 +193,14 @@ Fixpoint sync_monitor (cfgs : list pcfg) (on : list bool) (xs : list (pstep * sn
   | (_, _) :: r => sync_monitor cfgs on r
   end.
 
+Definition failed_start_monitor (k : pcase) : bool :=
+  match pc_steps k with
+  | [(PFailedStart, o)] => nothing_written (pc_cfgs k) (pc_init k) o
+  | _ => true
+  end.
+
 Definition pcase_monitor (k : pcase) : bool :=
-  sync_monitor (pc_cfgs k) (map p_persistent (pc_cfgs k)) (pc_steps k).
+  sync_monitor (pc_cfgs k) (map p_persistent (pc_cfgs k)) (pc_steps k) && failed_start_monitor k.
 
 Definition p_verdict (k : pcase) : ascii :=
   (if pcase_monitor k then (if pcase_agree k then "A" else "R") else "V")%char.
